@@ -16,17 +16,22 @@ ASSUMPTIONS = [
     "native port: pulsed abstract core stub (rdata.valid regardless of ready, as the real crossbar); AXI port: in-order AXI "
     "slave stub with random channel stalls that, like any AXI slave, waits for rready",
 ]
-MIN_NONTRIVIAL = {"quick": 12, "thorough": 40}
+MIN_NONTRIVIAL = {"quick": 40, "thorough": 100}
 PROFILES = ["always", "random", "slow", "stall-then-drain"]
 
 
 def cases(tier, seed):
     n = 240 if tier == "quick" else 1600
     out = []
+    # every (engine, port, depth, buffered, profile) combination, shuffled per seed and cycled: the quick tier sees a
+    # different 240 of the 320 each seed, the thorough tier sees each five times with different rates and lengths
+    combos = [(e, p, d, b, pr) for e in ("reader", "writer") for p in ("native", "native", "native", "axi")
+              for d in (1, 2, 4, 8, 16) for b in (False, True) for pr in PROFILES]
+    random.Random("C12/combos/%d" % seed).shuffle(combos)
     for k in range(n):
         r = random.Random("C12/%d/%s/%d" % (seed, tier, k))
-        c = dict(engine=["reader", "writer"][k % 2], port=["native", "native", "native", "axi"][(k // 2) % 4],
-                 fifo_depth=[1, 2, 4, 16, 16, 8][(k // 8) % 6], buffered=bool((k // 4) % 2), profile=PROFILES[(k // 2) % 4],
+        e, p, d, b, pr = combos[k % len(combos)]
+        c = dict(engine=e, port=p, fifo_depth=d, buffered=b, profile=pr,
                  nwords=r.randint(80, 200), cmd_ready_prob=r.choice([1.0, 0.7, 0.3]), extra_lat=r.choice([(0, 0), (0, 10), (0, 40)]),
                  long_stall=r.choice([0, 0, 0.01]), src_valid=r.choice([1.0, 0.8, 0.3]), dw=r.choice([32, 64]),
                  seed="C12/%d/%d" % (seed, k))
